@@ -309,15 +309,21 @@ def run_tv(ctx, module, cfg, name, path):
 
 
 def lib_panic(out):
-    """A panic of the driver process counts only when a library frame is on the panicking goroutine's stack."""
+    """A panic of the driver process counts only when the panicking goroutine was executing library code: the first frame
+    below the runtime's own is a function of go-libp2p-pubsub (not of the harness)."""
     if "panic:" not in out:
         return None
     tail = out.split("panic:", 1)[1]
-    first = tail.split("\n\ngoroutine ")[0] if "\n\ngoroutine " in tail else tail[:6000]
-    lib = re.search(r"go-libp2p-pubsub(@[^/\s]*)?[./]|%s/" % re.escape(os.path.realpath(vlib.REPO)), first)
-    own = re.search(r"verifharness/drivers/x04\.\(\*app\)|verifharness/drivers/x04\.\(\*stubRouter\)", first.split("\n")[2] if len(first.split("\n")) > 2 else "")
-    if lib and not own:
-        return tail.split("\n")[0].strip()
+    blocks = tail.split("\n\ngoroutine ")
+    if len(blocks) < 2:
+        return None
+    for line in blocks[1].split("\n")[1:]:
+        fn = line.strip()
+        if not fn or fn.startswith(("panic(", "runtime.", "/", "created by")) or line.startswith("\t"):
+            continue
+        if "go-libp2p-pubsub" in fn and "verifharness" not in fn:
+            return tail.split("\n")[0].strip() + " in " + fn.rsplit("(", 1)[0]
+        return None
     return None
 
 
